@@ -17,7 +17,7 @@ RULE = ("full product kind x required x nullability notation (none, 3.0 nullable
 FLOOR = 0.5
 ASSUMPTIONS = ["nullable iff nullable:true on a typed non-enum schema, 'null' in a type list, a null oneOf/anyOf member, or null among enum values (DESIGN §2.4)"]
 
-KINDS = ["str", "int", "num", "bool", "date", "datetime", "uuid", "enum_str", "enum_int", "enum_str0", "enum_int0", "const", "model_ref", "enum_ref", "inline_object",
+KINDS = ["str", "int", "num", "bool", "date", "datetime", "uuid", "enum_str", "enum_int", "enum_str0", "enum_int0", "const", "model_ref", "enum_ref", "inline_object", "composed_object",
          ["array", "str"], ["array", "int"], ["array", "model_ref"], ["array", "date"], ["union", "int", "str"], ["union", "model_ref", "int"]]
 DEFAULTS = {"str": "dflt", "int": 3, "num": 2.5, "bool": True, "date": "2001-02-03", "datetime": "2001-02-03T04:05:06+00:00",
             "uuid": K.UUID2, "enum_str": "b", "enum_int": -2, "enum_ref": "y"}
@@ -37,6 +37,13 @@ def _notations(kind):
     return out + ["t30", "t31", "oneof", "anyof"]
 
 
+def _samples(kind):
+    base = kind[1] if isinstance(kind, list) and kind[0] == "nullable" else kind
+    if base == "composed_object":
+        return [("value", {"z": 1, "own": "o"}), ("value", {})] + ([("null", None)] if base is not kind else [])
+    return K.samples(kind)
+
+
 def _wrap(kind, notation):
     return kind if notation == "none" else ["nullable", kind, notation]
 
@@ -44,6 +51,19 @@ def _wrap(kind, notation):
 def _schema(full, comps):
     if isinstance(full, list) and full[0] == "nullable" and full[2] == "oneof-null-first":
         return {"oneOf": [{"type": "null"}, K.schema(full[1], comps)]}
+    base = full[1] if isinstance(full, list) and full[0] == "nullable" else full
+    if base == "composed_object":
+        # an object that is typed AND composed with allOf (a reference plus an inline part); nullable through its type
+        K.schema("model_ref", comps)
+        sch = {"type": "object", "allOf": [{"$ref": "#/components/schemas/Ref"}, {"type": "object", "properties": {"own": {"type": "string"}}}]}
+        if full is base:
+            return sch
+        notation = full[2]
+        if notation == "t30":
+            return dict(sch, nullable=True)
+        if notation == "t31":
+            return dict(sch, type=["object", "null"])
+        return {("anyOf" if notation == "anyof" else "oneOf"): [sch, {"type": "null"}]}
     return K.schema(full, comps)
 
 
@@ -84,6 +104,12 @@ def cases(tier):
                                     yield {"labels": labels + [f"required-via={route}"], "payload": {
                                         "doc": gen.base_doc(c2, version=version), "pos": pos, "kind": kind, "notation": notation, "required": req,
                                         "default": None, "has_default": False, "key": key + "/" + route}}
+                            # the same holder as a CLOSED model (additionalProperties: false)
+                            cclosed = copy.deepcopy(comps)
+                            cclosed["M"]["additionalProperties"] = False
+                            yield {"labels": labels + ["closed-model"], "payload": {
+                                "doc": gen.base_doc(cclosed, version=version), "pos": pos, "kind": kind, "notation": notation, "required": req,
+                                "default": DEFAULTS[ks] if dflt else None, "has_default": dflt, "key": key, "ctx": "closed-model"}}
                             if not req:
                                 # the property is inherited by a child that states it more strictly: M itself (and a sibling
                                 # that only inherits) must keep their own three states, whatever the declaration order
@@ -173,7 +199,7 @@ def _model(p, res, sb):
         v = _model_one(p, cls, sb, p["key"])
         if p.get("ctx"):      # the context is part of the explanation, not of the signature: the expectation is the context-free one
             for x in v:
-                x["detail"] += f"  [{'parent' if comp == 'M' else 'sibling'} of a child that {p['ctx']}]"
+                x["detail"] += f"  [{'holder' if comp == 'M' else 'sibling'}; context: {p['ctx']}]"
         out = (out or []) + v
     return out
 
@@ -190,7 +216,7 @@ def _model_one(p, cls, sb, key):
         return [{"oracle": "attribute-missing", "site": pos, "key": key, "detail": f"{cls.__name__}.__init__ has no parameter p: {sig}"}]
     hints = pyval.hints(cls)
     ann = hints.get("p", typing.Any)
-    sample = K.samples(p["kind"])[0][1]
+    sample = _samples(p["kind"])[0][1]
     # 1. mandatory vs optional argument
     if p["required"] and not p["has_default"]:
         if par.default is not inspect.Parameter.empty:
@@ -235,7 +261,7 @@ def _model_one(p, cls, sb, key):
         except Exception as exc:  # noqa: BLE001
             viol.append({"oracle": "null-decode", "site": pos, "key": f"{key}/{err_class(exc)}", "detail": f"from_dict with null raised {exc!r}"})
     # 4. present: every sample value, the falsy ones ("" / 0 / False / [] / {}) included
-    for _c, sample in [x for x in K.samples(p["kind"]) if x[0] != "null"][:4]:
+    for _c, sample in [x for x in _samples(p["kind"]) if x[0] != "null"][:4]:
         falsy = "/falsy" if (sample in ("", 0, False) or sample == [] or sample == {}) else ""
         try:
             o = cls.from_dict({"p": copy.deepcopy(sample), "other": 1})
@@ -246,6 +272,19 @@ def _model_one(p, cls, sb, key):
                 viol.append({"oracle": "value-encode", "site": pos, "key": key + falsy, "detail": f"value {sample!r} re-encodes as {e!r}"})
         except Exception as exc:  # noqa: BLE001
             viol.append({"oracle": "value-decode", "site": pos, "key": f"{key}{falsy}/{err_class(exc)}", "detail": f"from_dict with {sample!r} raised {exc!r}"})
+    # 4b. decoding must not consume its input: the same mapping decoded twice gives equal objects, and stays what it was
+    for _c, sample in [x for x in _samples(p["kind"])][:3]:
+        src = {"p": copy.deepcopy(sample), "other": 1}
+        keep = copy.deepcopy(src)
+        try:
+            o1 = cls.from_dict(src)
+            o2 = cls.from_dict(src)
+            if not K.json_eq(src, keep):
+                viol.append({"oracle": "decode-consumes-input", "site": pos, "key": key, "detail": f"from_dict changed its argument: {keep!r} became {src!r}"})
+            elif o1 != o2:
+                viol.append({"oracle": "decode-consumes-input", "site": pos, "key": key, "detail": f"the same mapping decoded twice: {o1!r} then {o2!r}"})
+        except Exception:  # noqa: BLE001   (judged above)
+            pass
     # 5. declared type admits None exactly when the schema is nullable
     if _admits_none(ann) != nullable and ann is not typing.Any:
         viol.append({"oracle": "hint-nullability", "site": pos, "key": key, "detail": f"schema nullable={nullable} but attribute annotated {ann!r}"})
@@ -308,7 +347,7 @@ def _param_one(p, res, sb, ep, key):
                     viol.append({"oracle": "param-absent-wire", "site": pos, "key": key, "detail": f"omitted parameter transmitted: {wire.req_summary(q)!r}"})
     # present: every sample value, the falsy ones included, is transmitted (an empty array has nothing to transmit)
     if pos != "path":
-        for _c, sample in [x for x in K.samples(p["kind"]) if x[0] != "null"][:4]:
+        for _c, sample in [x for x in _samples(p["kind"]) if x[0] != "null"][:4]:
             if sample == []:
                 continue
             try:
@@ -339,7 +378,7 @@ def _endpoint(p, res, sb):
     key, viol = p["key"], []
     mod = wire.endpoint_module(sb, res.endpoints[0])
     unset = sb.mod("types").UNSET
-    sample = K.samples(p["kind"])[0][1]
+    sample = _samples(p["kind"])[0][1]
     states = [("value", {"p": copy.deepcopy(sample), "other": 1})]
     if not p["required"]:
         states.append(("absent", {"other": 1}))
